@@ -194,7 +194,9 @@ def _r08_2_then_form(ctx, prog, crate, rec, x, b):
 
 
 def r08_2(ctx, prog, crate, rec):
-    cands = [b for b in prog.lib_bodies(crate) if any(c.callee == "std::sync::Barrier::new" for c in b.live_calls()) and "::tests::" not in b.path]
+    from lib import inline as _inl
+    cands = [b for b in prog.lib_bodies(crate) if any(c.callee == "std::sync::Barrier::new" for c in b.live_calls()) and "::tests::" not in b.path and
+             not _inl.absorbed(prog, b)]
     if not ctx.check(len(cands) == 1, "R08.2", ["Barrier::new", "one-owner"], "Barrier::new is called from %s" % [x.path for x in cands], None):
         return
     b = cands[0]
@@ -206,44 +208,50 @@ def r08_2(ctx, prog, crate, rec):
     if not ctx.check(len(bn) == 1 and len(pe) == 1, "R08.2", [b.path, "shape"], "Barrier::new x%d par_extend x%d" % (len(bn), len(pe)), b.where(0)):
         return
     bn, pe = bn[0], pe[0]
-    d = direct_place(b, bn.args[0])
-    tc_call = d[1] if d and d[0] == "call" else None
-    ctx.check(tc_call is not None and tc_call.callee == "std::num::NonZero::get" and
-              {s.label() for s in b.prov.op_src(tc_call.args[0])} == {"param:self.thread_count"}, "R08.2", [b.path, "barrier-arity-is-thread_count"],
-              "Barrier::new's argument is not self.thread_count.get() (%s)" % (d,), bn.line())
-    # aux = thread_count - 1 from the same call
-    da = direct_place(b, pe.args[2])
-    ok = False
-    if da and da[0] == "place" and da[2] and da[2][0] == 0:
-        # (SubWithOverflow result).0
-        defs = b.prov.defs.get(da[1], [])
-        if len(defs) == 1 and defs[0][0] == "S":
-            da = ("rvalue", defs[0][3]["rv"], defs[0][1], defs[0][2])
-    if da and da[0] == "rvalue" and da[1]["k"] == "binop" and da[1]["op"] in ("Sub", "SubWithOverflow", "SubUnchecked"):
-        x = direct_place(b, da[1]["a"])
-        ok = x is not None and x[0] == "call" and tc_call is not None and x[1].bb == tc_call.bb and const_int(da[1]["b"]) == 1
-    ctx.check(ok, "R08.2", [b.path, "aux-is-thread_count-minus-1"],
-              "par_extend's auxiliary-thread count is not (the same) thread_count - 1: barrier arity and participant count can differ", pe.line())
-    # barrier None iff aux == 0
+    # value-based (lib/symexpr.py), so that `if single { None } else { Some(Barrier::new(n)) }`, the same with the branches
+    # swapped, and `(!single).then(|| Barrier::new(n))` (spelled out by lib/inline.py) are one and the same
+    from lib.symexpr import Sym, bool_switch, show
+
+    def strip_sites(e):
+        if isinstance(e, tuple):
+            if e and e[0] == "site" and len(e) > 3:
+                return ("call", e[1], tuple(strip_sites(x) for x in e[3]))
+            return tuple(strip_sites(x) for x in e)
+        return e
+    S = Sym(b, site_args=True)
+    tc = ("call", "std::num::NonZero::get", (("arg", 1, ("thread_count",)),))
+    arity = strip_sites(S.op(bn.args[0]))
+    ctx.check(arity == tc, "R08.2", [b.path, "barrier-arity-is-thread_count"], "Barrier::new's argument is %s, expected self.thread_count.get()" % show(arity), bn.line())
+    aux = strip_sites(S.op(pe.args[2]))
+    ok_aux = aux[0] == "lin" and aux[2] == -1 and len(aux[1]) == 1 and aux[1][0] == (tc, 1)
+    ctx.check(ok_aux, "R08.2", [b.path, "aux-is-thread_count-minus-1"],
+              "par_extend's auxiliary-thread count is %s, expected (the same) thread_count - 1: barrier arity and participant count can differ" % show(aux), pe.line())
+    # the test that decides between a barrier and none: aux == 0 / thread_count == 1 (single) in any spelling
     sw = None
     for bi, t in b.switches():
-        dd = direct_place(b, t["discr"])
-        if dd and dd[0] == "rvalue" and dd[1]["k"] == "binop" and dd[1]["op"] == "Eq" and const_int(dd[1]["b"]) == 0:
-            srcs = b.prov.op_src(dd[1]["a"])
-            if tc_call is not None and any(s.kind == "call" and s.b == tc_call.bb for s in srcs) and any(s.kind == "binop" and s.a.startswith("Sub") for s in srcs):
-                zero = [a[1] for a in t["arms"] if a[0] == "0"]
-                if zero and bn.bb in b.reach(zero, avoid=[t["otherwise"]]) or (zero and bn.bb in tables.exclusive_blocks(b, zero[0], [t["otherwise"]], stop=[bi])):
-                    sw = (bi, t, zero[0])
-    if ctx.check(sw is not None, "R08.2", [b.path, "barrier-iff-multi-thread"], "Barrier::new is not guarded by `aux_thread_count == 0`", bn.line()):
-        bi, t, multi = sw
-        single = t["otherwise"]
+        bs = bool_switch(b, S, bi)
+        if bs is None:
+            continue
+        atom, t_holds, t_not = bs
+        atom = strip_sites(atom)
+        if atom[0] == "Eq" and (set(atom[1:]) == {("int", 0), aux} or set(atom[1:]) == {("int", 1), tc}):
+            single, multi = t_holds, t_not
+        elif atom[0] == "Lt" and ((atom[1] == ("int", 0) and atom[2] == aux) or (atom[1] == ("int", 1) and atom[2] == tc)):
+            single, multi = t_not, t_holds
+        else:
+            continue
+        if bn.bb in tables.exclusive_blocks(b, multi, [single], stop=[bi]):
+            sw = (bi, t, multi, single)
+    if ctx.check(sw is not None and ok_aux, "R08.2", [b.path, "barrier-iff-multi-thread"],
+                 "Barrier::new is not guarded by a test that more than one thread takes part (aux_thread_count != 0 / thread_count != 1)", bn.line()):
+        bi, t, multi, single = sw
         ctx.check(bn.bb not in b.reach([single], avoid=[bi]) or bn.bb in tables.exclusive_blocks(b, multi, [single], stop=[bi]), "R08.2",
                   [b.path, "no-barrier-when-single"], "a barrier is created for a single thread", bn.line())
         # on the single edge the barrier is None
         vs = set()
         for x in tables.exclusive_blocks(b, single, [multi], stop=[bi]):
-            for s in b.blocks[x]["stmts"]:
-                if s["k"] == "assign" and s["rv"]["k"] == "agg" and s["rv"].get("variant") == "None" and "Barrier" in s["p"]["ty"]:
+            for s_ in b.blocks[x]["stmts"]:
+                if s_["k"] == "assign" and s_["rv"]["k"] == "agg" and s_["rv"].get("variant") == "None" and "Barrier" in s_["p"]["ty"]:
                     vs.add("None")
         ctx.check(vs == {"None"}, "R08.2", [b.path, "none-when-single"], "no `None` barrier on the single-thread edge", b.where(single))
     # Barrier::new inside the sampling loop: one fresh barrier per round
